@@ -10,6 +10,7 @@ import (
 	"regexp"
 	"strconv"
 	"strings"
+	"sync"
 
 	"verifharness/internal/fw"
 	"verifharness/internal/gen"
@@ -169,6 +170,24 @@ func c08Tree() map[string][]byte {
 	return f
 }
 
+var c08TreeOnce sync.Once
+var c08TreePath string
+
+// c08TreeDir writes the scratch tree once per worker process.
+func c08TreeDir() string {
+	c08TreeOnce.Do(func() {
+		dir := run.ScratchSub("c08tree")
+		_ = os.RemoveAll(dir)
+		for name, content := range c08Tree() {
+			p := filepath.Join(dir, name)
+			_ = os.MkdirAll(filepath.Dir(p), 0o755)
+			_ = os.WriteFile(p, content, 0o644)
+		}
+		c08TreePath = dir
+	})
+	return c08TreePath
+}
+
 func c08StreamNames(t *fw.T, shard, nshards int, emit func(*fw.Case)) {
 	maxLen := t.Pick(6, 8)
 	n := 0
@@ -217,6 +236,9 @@ func c08EvalName(t *fw.T, c *fw.Case) {
 	for _, quoted := range []bool{false, true} {
 		d := c08NameDoc(name, quoted)
 		c.Docs[0] = d
+		if !t.Replay {
+			d.ReuseDir = c08TreeDir()
+		}
 		o := t.Exec(d)
 		t.Count("names_checked")
 		danger := dangerousName(name)
